@@ -59,9 +59,11 @@ pub struct Rep {
     pub cont: bool,
     /// value of EXAMINED when the report was made
     pub at: u32,
+    /// (expected reports only) the property the expectation belongs to
+    pub tag: u8,
 }
 
-pub const REP0: Rep = Rep { kind: 0, loc: LOC0, d: 0, val: 0, acc: 0, acc2: 0, cont: true, at: 0 };
+pub const REP0: Rep = Rep { kind: 0, loc: LOC0, d: 0, val: 0, acc: 0, acc2: 0, cont: true, at: 0, tag: 0 };
 
 pub static mut NREP: u8 = 0;
 pub static mut NDEC: u8 = 0;
@@ -86,6 +88,7 @@ pub fn reset() {
         NMERGE = 0;
     }
     crate::vsrc::reset_src();
+    crate::catalogue::reset_calls();
 }
 
 pub fn set_script(s: [bool; MAXDEC]) {
